@@ -66,7 +66,7 @@ CHECKS = {
  'C15': dict(cat='fault_enumeration', tech='deallocator monitor (link-time --wrap) over every exit of every secret-taking call: success, authentication failure and each enumerated allocation-fault index',
              text='Every block handed back to the allocator during a secret-taking high-level call is snapshotted at the moment of release and scanned for 8-octet windows of the secret inputs, their '
                   'expanded forms (belt key schedule, HMAC ipad/opad, hashed long keys), module-specific derived secrets and -- on failing unwraps of authentic tokens -- the content the token protects, on the success exit, on authentication-failure exits (one representative of every (function, altered field) class at least) and on every '
-                  'allocation-fault exit (fail exactly the i-th allocation, for all i); the success exit of overlap-tolerant functions also under the buffer placements of C11.',
+                  'allocation-fault exit (fail exactly the i-th allocation, for all i; fail every allocation from the i-th on, for all i); the success exit of overlap-tolerant functions also under the buffer placements of C11.',
              note='trusted: link-time --wrap of free/realloc; needle derivation from the reference models; constant keys skipped (indistinguishable from wiped memory)', ref='4/C15'),
  'C09': dict(cat='fault_enumeration', tech='exhaustive fault-point enumeration (fail exactly the i-th allocation for every i; fail every allocation from the i-th on for every i) plus exhaustive argument-boundary sweeps, a NULL-pointer sweep over every pointer argument, and single-bit authentication corruptions on the real code under ASan',
              text='For every high-level call of the corpora the number N of allocation points is measured and the call is re-run N times with exactly the i-th allocation failing (malloc and realloc, realloc always moving): '
